@@ -358,6 +358,8 @@ def is_sym(v):
 
 def lift(v):
     """python / proxy number -> z3 arithmetic term"""
+    if isinstance(v, NpInt):
+        return lift(v.v)
     if isinstance(v, (SymInt, SymReal)):
         return v.e
     if isinstance(v, SymBool):
@@ -424,9 +426,57 @@ def bexpr(b):
 
 
 def _num_ok(o):
-    return isinstance(o, (SymInt, SymBool, SymReal, builtins.int, float, Fraction)) or (
+    return isinstance(o, (SymInt, SymBool, SymReal, NpInt, builtins.int, float, Fraction)) or (
         hasattr(o, "__index__") and not isinstance(o, SymArray)) or (
         hasattr(o, "dtype") and getattr(o, "shape", None) == ())
+
+
+NUMPY_SCALARS = False     # opt-in: reads from integer arrays in PLAIN PYTHON code yield numpy scalars of the array dtype
+
+
+class NpInt:
+    """A numpy integer scalar read from an array in plain (non-numba) Python code.  numpy keeps the array's dtype for
+    scalar-scalar arithmetic and wraps silently on overflow, so every such operation carries the obligation that the
+    result fits the dtype (int() / comparisons unwrap to the exact integer)."""
+    __slots__ = ("v", "dt")
+
+    def __init__(self, v, dt):
+        self.v, self.dt = v, dt
+
+    def _op(self, o, f, name):
+        if isinstance(o, NpInt):
+            r = f(self.v, o.v)
+            lo = max(self.dt.lo, o.dt.lo) if not (z3.is_expr(self.dt.lo) or z3.is_expr(o.dt.lo)) else self.dt.lo
+            hi = min(self.dt.hi, o.dt.hi) if not (z3.is_expr(self.dt.hi) or z3.is_expr(o.dt.hi)) else self.dt.hi
+            if is_sym(r) or z3.is_expr(lo) or z3.is_expr(hi):
+                ENG.oblige(z3.And(lift(r) >= lo, lift(r) <= hi), f"numpy scalar arithmetic stays inside the array dtype ({name} of two {self.dt.name} scalars in Python code)")
+            elif not (lo <= r <= hi):
+                ENG.oblige(False, f"numpy scalar arithmetic stays inside the array dtype ({name}) value={r}")
+            return NpInt(r, self.dt)
+        return f(self.v, o)
+
+    def __mul__(self, o): return self._op(o, lambda a, b: a * b, "product")
+    def __rmul__(self, o): return o * self.v
+    def __add__(self, o): return self._op(o, lambda a, b: a + b, "sum")
+    def __radd__(self, o): return o + self.v
+    def __sub__(self, o): return self._op(o, lambda a, b: a - b, "difference")
+    def __rsub__(self, o): return o - self.v
+    def __neg__(self): return -self.v
+    def __floordiv__(self, o): return self.v // (o.v if isinstance(o, NpInt) else o)
+    def __mod__(self, o): return self.v % (o.v if isinstance(o, NpInt) else o)
+    def __lt__(self, o): return self.v < (o.v if isinstance(o, NpInt) else o)
+    def __le__(self, o): return self.v <= (o.v if isinstance(o, NpInt) else o)
+    def __gt__(self, o): return self.v > (o.v if isinstance(o, NpInt) else o)
+    def __ge__(self, o): return self.v >= (o.v if isinstance(o, NpInt) else o)
+    def __eq__(self, o): return self.v == (o.v if isinstance(o, NpInt) else o)
+    def __ne__(self, o): return self.v != (o.v if isinstance(o, NpInt) else o)
+    def __hash__(self): return hash(self.v)
+    def __index__(self): return self.v.__index__()
+    def __bool__(self): return bool(self.v != 0)
+    def __abs__(self): return abs(self.v)
+    def __str__(self): return str(self.v)
+    def __format__(self, spec): return format(self.v, spec)
+    def __repr__(self): return f"np({self.v!r})"
 
 
 class SymBool:
@@ -716,6 +766,8 @@ class SymReal:
 
 
 def s_int(v=0, *a):
+    if isinstance(v, NpInt):
+        return v.v
     if isinstance(v, SymInt):
         return v
     if isinstance(v, SymBool):
@@ -1053,8 +1105,12 @@ class SymArray:
         if any(i is _OOB for i in idxs):
             return 0
         if all(not isinstance(i, SymInt) for i in idxs):
-            return self.cells[self.offset + sum(i * s for i, s in zip(idxs, self.strides))]
-        return self._select(idxs)
+            v = self.cells[self.offset + sum(i * s for i, s in zip(idxs, self.strides))]
+        else:
+            v = self._select(idxs)
+        if NUMPY_SCALARS and NUMBA_DEPTH == 0 and self.dtype is not None and self.dtype.lo is not None and not isinstance(v, (SymReal, float)):
+            return NpInt(v, self.dtype)
+        return v
 
     def _select(self, idxs):
         ranges = [range(self.shape[d]) if isinstance(i, SymInt) else [i] for d, i in enumerate(idxs)]
@@ -1078,6 +1134,8 @@ class SymArray:
 
     def _store_check(self, val):
         dt = self.dtype
+        if isinstance(val, NpInt):
+            val = val.v
         if isinstance(val, SymBool):
             val = val._i()
         if dt is not None and dt.lo is not None:
@@ -1246,6 +1304,7 @@ class SymArray:
 
 
 _OOB = object()
+NUMBA_DEPTH = 0         # > 0 while a transformed numba kernel runs (numba upcasts narrow integers to int64)
 ACCESSES = 0            # number of index normalisations performed (evidence: how many accesses were checked)
 class SparseSymArray:
     """1-d integer array of SYMBOLIC length backed by a z3 array term (for tables that are far too long to
